@@ -154,6 +154,127 @@ func enclosingConds(body ast.Node, target ast.Node) []condLit {
 	return out
 }
 
+// enclosingCondsFlow is enclosingConds plus the conditions that hold implicitly because an earlier sibling statement
+// `if C { ...; return/goto/continue/break }` (without else) has left: for the statements behind it !C holds - the
+// early-return spelling of if/else. Error tests (`err != nil`) are not reported. Innermost first.
+func enclosingCondsFlow(info *types.Info, body ast.Node, target ast.Node) []condLit {
+	var implicit []condLit
+	terminates := func(b *ast.BlockStmt) bool {
+		if b == nil || len(b.List) == 0 {
+			return false
+		}
+		switch x := b.List[len(b.List)-1].(type) {
+		case *ast.ReturnStmt:
+			return true
+		case *ast.BranchStmt:
+			return x.Tok == token.GOTO || x.Tok == token.CONTINUE || x.Tok == token.BREAK
+		case *ast.ExprStmt:
+			if call, ok := x.X.(*ast.CallExpr); ok {
+				if id, ok := call.Fun.(*ast.Ident); ok && id.Name == "panic" {
+					return true
+				}
+			}
+		}
+		return false
+	}
+	isErrTest := func(e ast.Expr) bool {
+		be, ok := ast.Unparen(e).(*ast.BinaryExpr)
+		if !ok || (be.Op != token.NEQ && be.Op != token.EQL) {
+			return false
+		}
+		var x ast.Expr
+		if isNilIdent(info, be.Y) {
+			x = be.X
+		} else if isNilIdent(info, be.X) {
+			x = be.Y
+		}
+		if x == nil {
+			return false
+		}
+		tv, ok := info.Types[x]
+		return ok && tv.Type != nil && tv.Type.String() == "error"
+	}
+	scan := func(list []ast.Stmt) {
+		for j, st := range list {
+			if target.Pos() >= st.Pos() && target.End() <= st.End() {
+				for i := j - 1; i >= 0; i-- {
+					if is, ok := list[i].(*ast.IfStmt); ok && is.Else == nil && terminates(is.Body) && !isErrTest(is.Cond) {
+						implicit = append(implicit, condLit{is.Cond, false})
+					}
+				}
+			}
+		}
+	}
+	// innermost list first: collect lists on the path to the target, from the outside in, then reverse
+	var lists [][]ast.Stmt
+	ast.Inspect(body, func(n ast.Node) bool {
+		if n == nil {
+			return false
+		}
+		if _, ok := n.(*ast.FuncLit); ok && !(target.Pos() >= n.Pos() && target.End() <= n.End()) {
+			return false
+		}
+		if target.Pos() < n.Pos() || target.End() > n.End() {
+			return false
+		}
+		switch x := n.(type) {
+		case *ast.BlockStmt:
+			lists = append(lists, x.List)
+		case *ast.CaseClause:
+			lists = append(lists, x.Body)
+		case *ast.CommClause:
+			lists = append(lists, x.Body)
+		}
+		return true
+	})
+	if len(lists) > 0 {
+		// only the innermost list contributes "inner" implicit conditions; outer ones are appended after the explicit ones
+		scan(lists[len(lists)-1])
+	}
+	// a tagless switch is an if/else-if chain: inside case k, its own condition holds and those of the earlier cases don't
+	var caseConds []condLit
+	ast.Inspect(body, func(n ast.Node) bool {
+		if n == nil {
+			return false
+		}
+		if target.Pos() < n.Pos() || target.End() > n.End() {
+			return false
+		}
+		if sw, ok := n.(*ast.SwitchStmt); ok && sw.Tag == nil {
+			for k, cc := range sw.Body.List {
+				cl := cc.(*ast.CaseClause)
+				inBody := false
+				for _, st := range cl.Body {
+					if target.Pos() >= st.Pos() && target.End() <= st.End() {
+						inBody = true
+					}
+				}
+				if !inBody {
+					continue
+				}
+				if len(cl.List) == 1 {
+					caseConds = append(caseConds, condLit{cl.List[0], true})
+				}
+				for _, prev := range sw.Body.List[:k] {
+					for _, e := range prev.(*ast.CaseClause).List {
+						caseConds = append(caseConds, condLit{e, false})
+					}
+				}
+			}
+		}
+		return true
+	})
+	out := append([]condLit{}, implicit...)
+	out = append(out, caseConds...)
+	out = append(out, enclosingConds(body, target)...)
+	for i := len(lists) - 2; i >= 0; i-- {
+		n0 := len(implicit)
+		scan(lists[i])
+		out = append(out, implicit[n0:]...)
+	}
+	return out
+}
+
 func ruleC03GuardAgreement(c *Ctx) {
 	const rule = "C03.two-pass-guard-agreement"
 	c.floor(rule, 2, "writing functions with a size pass and a write pass")
@@ -1824,7 +1945,7 @@ func ruleC03CopyAgreement(c *Ctx) {
 				}
 			}
 			// innermost enclosing condition (drive kind)
-			conds := enclosingConds(f.Body(), cs.Call)
+			conds := enclosingCondsFlow(info, f.Body(), cs.Call)
 			if len(conds) > 0 {
 				desc = fmt.Sprintf("%s=%v:%s", exprString(conds[0].e), conds[0].pos, desc)
 			}
@@ -1973,13 +2094,11 @@ func ruleC05FlushUnconditional(c *Ctx) {
 	if newTW == nil {
 		return
 	}
-	lits := c.litsIn(newTW)
-	if len(lits) != 1 {
+	l, isRegCarrier := c.tapeCleanup(newTW)
+	if l == nil {
 		return
 	}
-	l := lits[0]
 	info := l.Pkg.TypesInfo
-	isReg := paramVar(newTW, "isRegular")
 	n := 0
 	for _, cs := range l.calls {
 		if !isMethod(cs.Callee, "bufio", "Writer", "Flush") {
@@ -1987,16 +2106,20 @@ func ruleC05FlushUnconditional(c *Ctx) {
 		}
 		n++
 		var extra []string
-		for _, cl := range enclosingConds(l.Body(), cs.Call) {
+		for _, cl := range enclosingCondsFlow(info, l.Body(), cs.Call) {
 			e := ast.Unparen(cl.e)
-			if st, ok := e.(*ast.StarExpr); ok && cl.pos {
-				_ = st
+			if _, ok := e.(*ast.StarExpr); ok && cl.pos {
 				continue // *dirty
 			}
-			if u, ok := e.(*ast.UnaryExpr); ok && u.Op == token.NOT && objOfIdent(info, u.X) == types.Object(isReg) && cl.pos {
-				continue // !isRegular
+			if u, ok := e.(*ast.UnaryExpr); ok && u.Op == token.NOT {
+				if _, ok := ast.Unparen(u.X).(*ast.StarExpr); ok && !cl.pos {
+					continue // early exit on !*dirty
+				}
+				if isRegCarrier(info, u.X) && cl.pos {
+					continue // !isRegular
+				}
 			}
-			if objOfIdent(info, e) == types.Object(isReg) && !cl.pos {
+			if isRegCarrier(info, e) && !cl.pos {
 				continue
 			}
 			// the error test of the call itself: `if err := bw.Flush(); err != nil`
@@ -2009,7 +2132,7 @@ func ruleC05FlushUnconditional(c *Ctx) {
 			"the final Flush additionally depends on "+strings.Join(extra, ", ")+": for some archive lengths the buffered tail (last data, padding, trailer) never reaches the tape")
 	}
 	if n == 0 {
-		c.bad(rule, l, "Flush#1", l.Lit.Pos(), "the trailer closure no longer flushes the tape buffer")
+		c.bad(rule, l, "Flush#1", l.Pos(), "the trailer closure no longer flushes the tape buffer")
 	}
 }
 
